@@ -22,7 +22,7 @@ CHECKS = {
          "Every cell of the relation is compared with a model transcribed from the documented flows; because the machine is memoryless beyond its state, cell-completeness implies agreement on every finite sequence; content-independence is sampled with generated payloads of every kind (structured ServerKeyExchange bodies, DER-shaped certificates, OCSP responses); random walks cross-check the composition.",
          "The reference model (vmodel/src/states.rs) is the harness's reading of the flows named in the statement.", "4/C08"),
  "C12": ("exhaustive enumeration: every registry row x 10 columns against an independent re-parse of the IANA text file and a pinned golden copy, all 65536 ids x 4 lookup routes; proptest-generated name perturbations",
-         "Registry content, id lookups, derived sizes and name-token consistency are finite and enumerated completely; name lookup is probed with generated near-miss strings, 128 million generated unregistered names and every prefix / suffix of the registry's own name strings; a scratch copy of the tree is built, its list edited (generated row appended, row renamed, row deleted) and built again in the same target directory, and a probe program must see the edited list.",
+         "Registry content, id lookups, derived sizes and name-token consistency are finite and enumerated completely; name lookup is probed with generated near-miss strings, 128 million generated unregistered names every prefix / suffix of the registry's own name strings and some forty other spellings of every row (id as text, other separators, other libraries' names); a scratch copy of the tree is built, its list edited (generated row appended, row renamed, row deleted) and built again in the same target directory, and a probe program must see the edited list.",
          "Trusts scripts/tls-ciphersuites.txt as the specification and the golden copy taken from the pinned tree; enum variants compared via Debug names.", "4/C12"),
  "C17": ("exhaustive enumeration of every value of 18 registry newtypes against IANA tables typed into the harness, and of the text 31 composite structures print for their registry-typed fields",
          "All named constants, Display/Debug of every integer of each domain, all conversions over all u16/u8 values, SignatureScheme split and key_bits for all 65536 groups; lists of 130 / 300 entries printed whole; Display / LowerHex of ids under format flags.",
@@ -31,19 +31,19 @@ CHECKS = {
 
 CHECKS.update({
  "C01": ("proptest-generated inputs (byte soup, every model encoder with 0..3 corruptions, allocation-dense shapes, asset prefixes) through ~120 entry points (plus every public parse function and Nom-deriving type found in the sources of the tree under test at build time that the table does not name) under a counting allocator, panic capture and a watchdog; generated operation histories on the defragmenter; libFuzzer campaigns in the thorough tier",
-         "Every public parsing entry point is called on every generated input with generated extra arguments; results are formatted ({:?}, {:#?}, Display, under precision / width / sign / zero / hex flags, and into writers that fail after k bytes); a panic (debug assertions and overflow checks are on), an allocation beyond 64 KiB + K*len, or a stall is a violation. Histories of up to 40 (thorough 700) operations drive one TlsRecordsParser to the 10 MiB cap. Absence of panics cannot be established by sampling; the evidence reports how much was explored.",
+         "Every public parsing entry point is called on every generated input with generated extra arguments; results are formatted ({:?}, {:#?}, Display, under precision / width / sign / zero / hex flags, and into writers that fail after k bytes); a panic (debug assertions and overflow checks are on), an allocation beyond 64 KiB + K*len, or a stall is a violation. Histories of up to 40 (thorough 700) operations drive one TlsRecordsParser to the 10 MiB cap. Nine list parsers run on 200 000 (thorough 2 000 000) minimal elements in an unoptimised probe process with a 2 MiB stack (stack depth). Absence of panics cannot be established by sampling; the evidence reports how much was explored.",
          "Termination is observed through a watchdog, not proved; allocation is counted per calling thread.", "4/C01"),
  "C06": ("metamorphic relation P(b) vs P(b++x) over 40 self-delimiting parsers with proptest-generated structures, corruptions and suffixes; pointer-provenance oracle over every reachable slice (hand-written visitor); defragmenter provenance over generated histories",
-         "Appending bytes (up to 16 MiB, and zero-filled buffers of 2^32 + k bytes) must not change value or outcome class and must extend the remainder; every non-empty slice reachable from a returned value must lie inside the consumed part of the caller's buffer (or, for defragmented results, inside the internal buffer exposed by the hook).",
+         "Appending bytes (up to 16 MiB, and zero-filled buffers of 2^32 + k bytes) must not change value or outcome class and must extend the remainder (also when an inner length field is raised by a multiple of 256 / 65536 in front of that many bytes of valid structures); every non-empty slice reachable from a returned value must lie inside the consumed part of the caller's buffer (or, for defragmented results, inside the internal buffer exposed by the hook).",
          "Values compared after conversion to model types; empty slices carry no provenance.", "4/C06"),
  "C07": ("model-based stateful testing: proptest-generated operation histories interpreted against a reference model (accumulate then one-shot parse) and a shadow fresh parser; targeted split / refusal / size-cap generators",
-         "k-way splits of generated handshake and heartbeat payloads, refusals (foreign type, nocopy, 10 MiB) with state preservation observed through the hook, histories of up to 120 operations in lock step with the model, exact boundary of the size limit, heartbeat messages of up to 3+65535+padding bytes in records within the cap with fragment boundaries steered onto 65535..65539 accumulated bytes; continuation records of 2^32 +- k bytes must be refused.",
+         "k-way splits of generated handshake and heartbeat payloads, refusals (foreign type, nocopy, 10 MiB) with state preservation observed through the hook, histories of up to 120 operations in lock step with the model, exact boundary of the size limit, heartbeat messages of up to 3+65535+padding bytes in records within the cap with fragment boundaries steered onto 65535..65539 accumulated bytes; continuation records of 2^32 +- k bytes must be refused; a defragmentation left alone for 2 s (quick) / 65 s (thorough) completes as if no time had passed.",
          "The model answers with the public one-shot parser on its own concatenation; where the statement is silent the model adopts the implementation's observable state.", "4/C07"),
  "C09": ("proptest-generated serializable values; oracle = byte equality with the harness's RFC encoder + parse-back round trip + re-serialization; unsupported values must give NotYetImplemented",
          "Messages, records (constructed and obtained by parsing), extensions and extension lists within wire limits (incl. bodies beyond 16 bits); every unsupported handshake variant, message kind and extension; the same records and extension lists through cookie_factory::gen into byte slices and cursors of every capacity around the full length and into a writer taking a few bytes per call (success only with every byte written and the reported position equal to their number).",
          "The harness's RFC encoder is the reference for emitted bytes; built with the crate's serialize feature.", "4/C09"),
  "C10": ("exhaustive enumeration of DTLS declared lengths x content types x cut points + proptest-generated DTLS records, handshake headers over full 24-bit ranges and datagrams, against reference header decoders and the model encoder",
-         "13-byte header fields (epoch / 48-bit sequence split), cap, Incomplete contract with exact Needed, fragment predicate and header fields verbatim, supported bodies, multi-record datagrams; the DTLS ChangeCipherSpec / alert message parsers against their TLS siblings on every input of 0..2 bytes.",
+         "13-byte header fields (epoch / 48-bit sequence split), cap, Incomplete contract with exact Needed, fragment predicate and header fields verbatim, supported bodies, multi-record datagrams, records packed to the cap with the smallest messages of each kind; the DTLS ChangeCipherSpec / alert message parsers against their TLS siblings on every input of 0..2 bytes.",
          "Quick tier samples the cuts beyond the record end for lengths > 512 (full in thorough).", "4/C10"),
  "C11": ("exhaustive enumeration of every value of 47 enumerated wire fields inside generated well-formed templates (templates vary with the value; RFC-meaningful neighbours), plus joint sweeps of the three record-header fields and of (hello version, cipher id, extension-block shape)",
          "Each field's whole integer domain is written into a well-formed structure and read back from the parsed value, for k template variants.",
@@ -52,16 +52,16 @@ CHECKS.update({
          "Exact decode and self-delimitation with trailing bytes, prefix rejection, clones, caller-supplied content parsers (empty, confined) for parse_content_and_signature, all 256 curve types, all 65536 named groups, all 65536 (hash, signature) octet pairs through the derived and the hand-written decoders, both negotiation flag values against inputs of both forms.",
          "Reference decoder for the two DigitallySigned forms is written in the harness.", "4/C13"),
  "C14": ("proptest-generated SCT lists with an RFC 6962 reference encoder; targeted overlong-entry / overlong-list corruptions",
-         "Lists of 0..8 SCTs with full-range fields, single-entry parser, entries exceeding the list, lists exceeding the input, prefixes; lists at the start of buffers of 10 MiB +- 1, 16 MiB and 2^32 + k bytes.",
+         "Lists of 0..8 SCTs with full-range fields, single-entry parser, entries exceeding the list, lists exceeding the input, prefixes, entries and lists of exactly 65531..65535 bytes; lists at the start of buffers of 10 MiB +- 1, 16 MiB and 2^32 + k bytes.",
          "Model encoder per RFC 6962 3.2/3.3.", "4/C14"),
  "C15": ("proptest-generated parsed and constructed hellos (TLS and DTLS); oracle = accessor equals (and aliases) the field, rand_time/rand_bytes by reference computation, cipher accessors against the harness's own registry table",
          "All trait accessors and inherent getters on parsed TLS/DTLS ClientHello, constructed values with randoms of any length (accessors by method syntax, trait path and trait object must agree; vectors with spare capacity; fields edited after construction), ServerHello constructor and getters; accessors through a reference to a reference; one fresh process per registered id in which that id is the first registry lookup.",
          "For randoms shorter than 4 bytes only absence of panics and agreement between the dispatch routes is required.", "4/C15"),
  "C16": ("differential: multi-record parsers vs an explicit loop over the single-record parser on proptest-generated record concatenations with six kinds of endings; alias differential on soup and corrupted structures",
-         "Records, remainder position and failure condition must match the loop exactly (also for runs of thousands of identical or empty records); the deprecated alias must be identical including errors.",
+         "Records, remainder position and failure condition must match the loop exactly (also for runs of thousands of identical or empty records and for 11 MiB of valid records in one buffer); the deprecated alias must be identical including errors.",
          "Records compared after conversion to model types.", "4/C16"),
  "C18": ("configuration enumeration (4 feature sets, complete) + differential execution of a proptest-generated corpus under the three buildable configurations; source scan (also of the macro-expanded crate), compile-time Send/Sync probe per feature set and a multi-threaded lookup stress for the static sub-claims",
-         "Build status per feature set, compile_error text (through a dependent package, and for the crate's own library and unit-test harness), byte-identical per-input digests of 30 entry points + registry + state machine + defragmenter + the verdict of == between the values decoded from consecutive (near-duplicate) inputs across configurations; forbid(unsafe_code) and absence of the unsafe token; Send + Sync of 77 public types and of the value every public gen_* serializer returns, by type-checking a probe package.",
+         "Build status per feature set, compile_error text (through a dependent package, and for the crate's own library and unit-test harness), byte-identical per-input digests of 30 entry points + registry + state machine + defragmenter + the verdict of == between the values decoded from consecutive (near-duplicate) inputs across configurations; forbid(unsafe_code) and absence of the unsafe token; Send + Sync of 77 listed public types, of every pub struct / pub enum found in the sources of the tree under test, and of the value every public gen_* serializer returns, by type-checking a probe package.",
          "The static sub-claims are compile-time facts, not decided by generated inputs (stated in DESIGN.md).", "4/C18"),
 })
 
